@@ -326,7 +326,13 @@ class World:
         self.hmax = (c['hold'] + 1) * GRID
         self.cmax = (max(c['clat'], 40 if c['pslowc'] else 0) * 4 + 1) * GRID
         self.dmax = (max(c['dlat'], 40 if c['pslowd'] else 0) * 4 + 1) * GRID
-        tick = max(self.cmax, c['min_conn_time'])
+        # The pool's tick period is max(average connect time, MIN_CONN_TIME_THRESHOLD).  A connect that a
+        # stalled process (fault 'stall') was part of is *measured* as having taken the stall as well, so
+        # after a stall of s seconds the pool may tick - and feed connection-less blocks - only every
+        # cmax + s seconds until faster connects have diluted the average.  Both windows are therefore
+        # expressed in ticks of that worst-case length, not of the nominal 10 ms.
+        stall_total = sum(arg for kind, _, arg in ops if kind == 'stall')
+        tick = max(self.cmax, c['min_conn_time']) + stall_total
         self.bound = 3 * c['gc'] + 200 * tick + 50 * (self.hmax + self.cmax + self.dmax) + 5.0
         self.q_since = None
         self.abandon = False
